@@ -137,7 +137,7 @@ def gen_set(r, sh, lines, iface, objtok, names, malformed):
         data = rtext(r, cnt) if (nt & 255) in (3, 4) and r.random() < 0.7 else rdata(r, cnt * NTSZ[nt & 255])
     if malformed and r.random() < 0.05:
         nt = r.choice([0, 7, 26, 4096 | 24])
-        data = b"\0" * 16
+        data = b"\0" * (4 if nt == 4096 | 24 else 16)
         cnt = 1
     lines.append("%s.setattr %s %s %d %d %s" % (iface, objtok, hx(name), nt, cnt, hx(data)))
     if cnt >= 1 and (nt & 255) in NTSZ and not (nt & 4096):
